@@ -215,7 +215,14 @@ class World:
                 except SimCrash:
                     out.crashed = True
                 except Exception as e:  # library code failing is an observation, not a harness error
-                    out.tb = traceback.format_exc(limit=-6)
+                    # formatting a traceback makes linecache stat() source files, some under relative names
+                    # ("pandas/_libs/parsers.pyx") that resolve into the virtual cwd: that is the harness, not the
+                    # code under test, so it must neither count as I/O primitives nor trip an armed fault
+                    fs.active = False
+                    try:
+                        out.tb = traceback.format_exc(limit=-6)
+                    finally:
+                        fs.active = True
                     out.exc = _strip_tb(e)
             # Objects kept alive only by the failed call's frames (e.g. a half-written MrcFile) are
             # finalised *now*, inside the call, as in a script that catches the error and moves on;
